@@ -324,6 +324,21 @@ static void flush_bitpack(carquet_rle_encoder_t* enc) {
     enc->bitpack_total = 0;
 }
 
+/* A partially filled literal group may only be zero-padded at the very end of
+ * the stream; in mid-stream the padding would be decoded as extra values.
+ * Complete the group from the pending repeats before they are emitted. */
+static void complete_literal_group(carquet_rle_encoder_t* enc) {
+    while (enc->bitpack_count > 0 && enc->repeat_count > 0) {
+        enc->bitpack_buffer[enc->bitpack_count++] = enc->prev_value;
+        enc->bitpack_total++;
+        enc->repeat_count--;
+
+        if (enc->bitpack_count == 8) {
+            flush_bitpack(enc);
+        }
+    }
+}
+
 void carquet_rle_encoder_init(
     carquet_rle_encoder_t* enc,
     carquet_buffer_t* buffer,
@@ -356,6 +371,7 @@ carquet_status_t carquet_rle_encoder_put(
     }
 
     /* Value changed */
+    complete_literal_group(enc);
     if (enc->repeat_count >= 8) {
         /* Flush as RLE */
         flush_bitpack(enc);  /* Flush any pending bit-pack */
@@ -395,6 +411,7 @@ carquet_status_t carquet_rle_encoder_flush(carquet_rle_encoder_t* enc) {
         return enc->status;
     }
 
+    complete_literal_group(enc);
     if (enc->repeat_count >= 8) {
         flush_bitpack(enc);
         flush_rle(enc);
@@ -409,10 +426,11 @@ carquet_status_t carquet_rle_encoder_flush(carquet_rle_encoder_t* enc) {
         }
         enc->repeat_count = 0;
 
-        /* Flush remaining bit-pack buffer */
-        if (enc->bitpack_count > 0) {
-            flush_bitpack(enc);
-        }
+    }
+
+    /* Flush remaining bit-pack buffer */
+    if (enc->bitpack_count > 0) {
+        flush_bitpack(enc);
     }
 
     return CARQUET_OK;
